@@ -210,6 +210,9 @@ pub struct GlobalEnvironment {
     /// Environment slots. The compiler produces shallow bindings as
     /// ptr into this vector at compile time.
     slots: Vec<VCell>,
+
+    /// Slots whose binding the collector released, free to be bound again.
+    free_slots: Vec<usize>,
 }
 
 impl GlobalEnvironment {
@@ -217,6 +220,32 @@ impl GlobalEnvironment {
         GlobalEnvironment {
             bindings: HashMap::new(),
             slots: vec![],
+            free_slots: vec![],
+        }
+    }
+
+    /// Release Unreferenced
+    ///
+    /// Release every binding that is neither bound to a value nor referred to by
+    /// live code: compiling a form creates a binding for every global name it
+    /// mentions, and a name nobody ever defines would otherwise stay for good
+    /// once the code that mentioned it is gone.
+    ///
+    /// # Arguments
+    /// `referenced` - The slots that code found live by the collector refers to
+    pub fn release_unreferenced(&mut self, referenced: &HashSet<usize>) {
+        let slots = &self.slots;
+        let released: Vec<(usize, usize)> = self
+            .bindings
+            .iter()
+            .filter(|(_, slot)| {
+                matches!(slots.get(**slot), Some(VCell::Undefined)) && !referenced.contains(*slot)
+            })
+            .map(|(sym, slot)| (*sym, *slot))
+            .collect();
+        for (sym, slot) in released {
+            self.bindings.remove(&sym);
+            self.free_slots.push(slot);
         }
     }
 
@@ -241,8 +270,13 @@ impl GlobalEnvironment {
         match self.bindings.get(&sym) {
             Some(slot) => *slot,
             None => {
-                self.slots.push(VCell::undefined());
-                let slot = self.slots.len() - 1;
+                let slot = match self.free_slots.pop() {
+                    Some(slot) => slot,
+                    None => {
+                        self.slots.push(VCell::undefined());
+                        self.slots.len() - 1
+                    }
+                };
                 self.bindings.insert(sym, slot);
                 slot
             }
